@@ -11,6 +11,7 @@ from stepcode.SimpleDataTypes import INTEGER, REAL, STRING  # noqa: E402
 from stepcode import Builtin  # noqa: E402
 
 BAD = 99
+TWIN = 100   # PyAggr!Twin: of another type, but compares equal to the abstract value 1
 
 
 def mk(c, T=INTEGER):
@@ -35,6 +36,13 @@ def val(v, base="INTEGER", concrete=None):
     """abstract value -> element of the base type (the ill-typed value is of another type)"""
     if v == BAD:
         return REAL(1.5) if base == "INTEGER" else INTEGER(5)
+    if v == TWIN:
+        one = INTEGER(1) if concrete is None else conc(base, concrete[0])
+        if base == "INTEGER":
+            return REAL(float(one))
+        if base == "REAL":
+            return INTEGER(int(one))
+        return INTEGER(5)   # no value of another type compares equal to a STRING: as ill-typed as BAD
     if concrete is None:
         return INTEGER(v)
     return conc(base, concrete[v - 1])
